@@ -1,6 +1,5 @@
 import GateModel.Base.Line
-import GateModel.C28.Model
-import GateModel.C28.Spec
+import GateModel.C28.View
 /-
 C28 driver.  Case lines (args separated by one space):
 
@@ -26,12 +25,6 @@ hazard's signature; every other difference is `viol:mismatch-<field>`; a panic i
 -/
 namespace Gate.C28
 open Gate
-
-/-- what a client at these caps would hold for a proxy entry with attributes `a` -/
-def view (fl : Caps) (a : Attrs) : CEntry :=
-  { uid := a.uid, name := a.name, props := a.props, display := a.display, latency := msOf a.latency,
-    gameType := gameTypeById a.gameMode, listed := a.listed,
-    order := if fl.ord then a.order else 0, hat := if fl.hat then a.hat else true }
 
 /-! ### printing -/
 
@@ -169,6 +162,7 @@ structure DState where
 
 def sigProfile := "add-keeps-old-profile"
 def sigStale := "stale-handle-update"
+def sigNil := "nil-uuid-setter-error"
 
 /-- the (uuid, field) differences op may legitimately (= as recorded) introduce, from the model's pre-state -/
 def hazardsOf (fl : Caps) (s : State) : Op → List ((UUID × String) × String)
@@ -179,6 +173,7 @@ def hazardsOf (fl : Caps) (s : State) : Op → List ((UUID × String) × String)
       | some a => [((a.uid, fieldName f), sigStale)]
       | none => []
     else []
+  | .setCur u f => if nilSetHazard fl s u f then [((u, fieldName f), sigNil)] else []
   | _ => []
 
 def stepCase (d : DState) (c : Case) : DState × String × String :=
